@@ -28,4 +28,22 @@ IntegerBag(p) == \A r \in DOMAIN p : RIsInt(p[r])
 FractionalResult(p, w, t, q) == RemoveCands(Positive(FracOneQ(p, w, t, q)), {w})
 (* the set of <<bag, probability>> a random transfer of w's pile may return *)
 RandomResults(p, w, t, q) == {<<RemoveCands(ApplyPick(p, w, f), {w}), PickProb(p, w, f)>> : f \in RandPicksQ(p, w, t, q)}
+(* The same membership as a predicate, without enumerating the picks (piles of thousands of votes): the ballots not led by w are handed *)
+(* on untouched (base), so the pick can be read off the returned bag -- f[r] = out[r minus w] - base[r minus w] -- and it must be a      *)
+(* sub-collection of the transferable pile of size min(surplus, transferable) that reproduces the returned bag exactly.                 *)
+NonPile(p, w) == [r \in DOMAIN p \ Pile(p, w) |-> p[r]]
+PickOf(p, w, out) ==
+  LET base == RemoveCands(NonPile(p, w), {w})
+  IN [r \in Transferable(p, w) |-> LET r2 == Strip(r, {w}) IN
+        RSub(IF r2 \in DOMAIN out THEN out[r2] ELSE R(0), IF r2 \in DOMAIN base THEN base[r2] ELSE R(0))]
+IsRandomResult(p, w, t, q, out) ==
+  LET pile == Transferable(p, w)
+      tot  == SumInt([r \in pile |-> p[r][1]], pile)
+      s    == RFloor(t) - q
+      K    == IF s < tot THEN s ELSE tot
+      fq   == PickOf(p, w, out)
+      f    == [r \in pile |-> fq[r][1]]
+  IN /\ \A r \in pile : RIsInt(fq[r]) /\ f[r] >= 0 /\ f[r] <= p[r][1]
+     /\ SumInt(f, pile) = K
+     /\ out = RemoveCands(ApplyPick(p, w, f), {w})
 =============================================================================
